@@ -1006,3 +1006,40 @@ def reuse_cases(hist, inner_build, suite):
                         cls="{}:{}:{}".format(forms, "first" if i == 0 else "again", isuite),
                         nontrivial=inner.nontrivial, info={"hist": hist, "step": i}))
     return out
+
+
+# file sizes as a dimension.  A reader may treat a file differently by its size (block-sized buffers, caches that
+# skip small files, chunked parsing), so suites that read graph or formula FILES use the same content at several
+# sizes: padded with comment lines of the format, which no reader may take for content.
+
+COMMENT_LINE = {"kthlist": "c", "dimacs": "c", "cnf": "c", "matrix": "#", "gml": "#", "dot": "//", "opb": "*"}
+FILE_ANCHORS = ["clitools/graph_fileinput.py", "clitools/graph_args.py", "clitools/cmdline.py", "graphs.py",
+                "utils/parsedimacs.py", "clitools/kthlist2pebbling.py", "clihelpers/dimacs_helpers.py"]
+
+
+def pad_text(text, fmt, size):
+    """`text` preceded by comment lines of format `fmt` so that the result is exactly `size` characters (ASCII: bytes)
+    long; `text` itself when it is already that long or the format has no comment syntax"""
+    mark = COMMENT_LINE.get(fmt)
+    need = size - len(text)
+    if mark is None or need < len(mark) + 1:
+        return text
+    lines = []
+    while need > 0:
+        k = min(need, 72)
+        if need - k in range(1, len(mark) + 1):      # never leave a rest too short for a comment line
+            k -= len(mark) + 1
+        lines.append(mark + " padding "[:max(0, k - len(mark) - 1)].ljust(k - len(mark) - 1, "."))
+        need -= k
+    return "\n".join(lines) + "\n" + text
+
+
+def file_sizes(lo=64, hi=70000, fixed=(4096, 65536)):
+    """file sizes worth trying: around the constants of the file-reading modules of the CURRENT source, plus fixed ones.
+    For each such value P: P-1, P, P+1 and P+40 (pad_text puts the padding first, so with P+40 the P-th byte falls inside
+    the content: a reader that treats the first P bytes apart meets the boundary in the middle of the graph)"""
+    out = set()
+    cs = source_constants(FILE_ANCHORS, wide=True)
+    for f in list(fixed) + [c for c in cs if lo <= c <= hi] + [1 << c for c in cs if c <= 40 and lo <= (1 << c) <= hi]:
+        out.update(x for x in (f - 1, f, f + 1, f + 40) if lo <= x <= hi)
+    return sorted(out)
